@@ -2,7 +2,7 @@
    [Model.dispatch], prints one s-expression per line on stdout.
    Wire format: '(' ')' and atoms; an atom is a run of characters other than
    whitespace, parentheses and backslash, where "\HH" (two hex digits) encodes any
-   byte.  The empty atom is written "\e". *)
+   byte.  The empty atom is written "\E" (hex digits are always lower case). *)
 open Model
 
 let explode (s : string) : char list = List.init (String.length s) (String.get s)
@@ -37,7 +37,7 @@ let parse (s : string) : sx =
           match s.[!pos] with
           | ' ' | '\t' | '(' | ')' -> ()
           | '\\' ->
-            if s.[!pos+1] = 'e' then (pos := !pos + 2; loop ())
+            if s.[!pos+1] = 'E' then (pos := !pos + 2; loop ())
             else begin
               Buffer.add_char b (Char.chr (16 * hexval s.[!pos+1] + hexval s.[!pos+2]));
               pos := !pos + 3; loop () end
@@ -53,7 +53,7 @@ let safe c = match c with
 let rec print (b : Buffer.t) (x : sx) : unit =
   match x with
   | A cs ->
-    if cs = [] then Buffer.add_string b "\\e"
+    if cs = [] then Buffer.add_string b "\\E"
     else List.iter (fun c -> if safe c then Buffer.add_char b c
                      else Buffer.add_string b (Printf.sprintf "\\%02x" (Char.code c))) cs
   | L l ->
